@@ -76,8 +76,14 @@ def run_path(harness, prefix, stats, seed=0, want_sample=False, step_limit=2_000
         # a model is at fault (reported as a non-reproducing counterexample = inconclusive)
         tb = traceback.format_exc(limit=-6)
         model = None
+        # only an exception raised *inside the repository's code* is a candidate; one raised by the harness itself (or by
+        # a model) is a harness error
+        frames = traceback.extract_tb(x.__traceback__)
+        inner = frames[-1].filename if frames else ''
+        from . import loader as _loader
+        in_repo = os.path.abspath(inner).startswith(os.path.abspath(os.path.join(_loader.REPO, 'mpgameserver')) + os.sep)
         try:
-            if e.solver.check() == z3.sat:
+            if in_repo and e.solver.check() == z3.sat:
                 model = e.model_values(e.solver.model())
         except Exception:
             model = None
